@@ -89,6 +89,15 @@ def canon_val(v):
     return canon_scalar(v)
 
 
+def canon_mode(m):
+    """a mode as the program holds it: an int, or (never on a tree where C11 holds) something else,
+    kept visible instead of crashing the check"""
+    import numpy as np
+    if isinstance(m, (int, np.integer)) and not isinstance(m, (bool, np.bool_)):
+        return int(m)
+    return ("non-integer-mode", repr(m))
+
+
 def canon_program(p):
     ops = []
     for o in p.operations:
@@ -96,7 +105,7 @@ def canon_program(p):
             args = ([canon_val(a) for a in o["args"]], [(k, canon_val(v)) for k, v in o["kwargs"].items()])
         else:
             args = None
-        ops.append({"op": o["op"], "args": args, "modes": [int(m) for m in o["modes"]],
+        ops.append({"op": o["op"], "args": args, "modes": [canon_mode(m) for m in o["modes"]],
                     "modes_are_ints": all(isinstance(m, (int, np.integer)) and not isinstance(m, (bool, np.bool_))
                                           for m in o["modes"])})
     return ("prog", {
@@ -108,7 +117,7 @@ def canon_program(p):
         "ops": ops,
         "vars": [(k, canon_val(v)) for k, v in p.variables.items()],
         "params": sorted(p.parameters),
-        "modes": sorted(int(m) for m in p.modes),
+        "modes": sorted((canon_mode(m) for m in p.modes), key=repr),
     })
 
 
